@@ -210,8 +210,10 @@ class SolverWorld(World):
         if r < 0.8:
             return {"k": "opexp", "op": rng.choice(["N", "Sz", "S^2", "qubit", "qubit", "fermion"]), "seed": seed,
                     "theta_none": rng.random() < 0.3}
-        if r < 0.86:
+        if r < 0.84:
             return {"k": "rdm", "seed": seed}
+        if r < 0.87:
+            return {"k": "resources"}
         if r < 0.92:
             # the user modifies the Hamiltonian object held by the solver in place (scaling, constant shift, re-weighting a term)
             return {"k": "mutate_h", "how": rng.choice(["scale", "shift", "reweight"]), "c": rng.choice([2.0, 0.5, -1.0, 1.5]), "i": rng.randrange(64)}
@@ -290,6 +292,19 @@ class SolverWorld(World):
             except Exception as ex:
                 ctx.outcome(k, "refused-undetermined")       # get_rdm's values and domain belong to C13; here it only perturbs the solver
                 ctx.ev("rdm-refused", repr(ex)[:80])
+        elif k == "resources":
+            try:
+                quiet(s.get_resources)
+                ctx.outcome(k, "ok")
+            except Exception as ex:
+                ctx.outcome(k, "refused-undetermined")
+            if self.last_theta is not None and len(self.last_theta) == nvar:
+                # a read-only query must not change what the next evaluation reports
+                try:
+                    e = quiet(s.energy_estimation, np.array(self.last_theta))
+                    V += self._judge_energy(e, site, "energy_estimation-after-get_resources", self.last_theta)
+                except Exception:
+                    pass
         elif k == "mutate_h":
             from tangelo.toolboxes.operators import QubitOperator
             H = s.qubit_hamiltonian
